@@ -353,9 +353,6 @@ DeclineExact ==
           (/\ ~(AnyExec(scn) /\ ZMode(scn.z) # "execstack")
            /\ \E t \in scn.types : LegacyType(t) /\ \E i \in Loaded(scn) : Has(In(scn, i), t))
 
-ClassesAgree ==
-  \A t \in TypeUniverse : ~LegacyType(t) => WildClass(t) = GnuClass(t)
-
 Termination == <>Done
 
 -----------------------------------------------------------------------------
